@@ -142,6 +142,12 @@ pub fn after_step(drv: &mut Drv, w: &mut World, vd: &mut Verdicts, desc: &str) {
         let res = w.get("verif");
         tie(drv, w, vd, &format!("get {}", hx(b"verif")), Some(get_answer(&res)), desc);
     }
+    // the total reader the theorems speak about (`Read.FatT.readT`) against the group's reader (`Read.Fat.read`),
+    // both on the mirrored real image: at the start and at every 16th step
+    if first || w.hist.len() % 16 == 0 {
+        let a = drv.ask("fs read");
+        tie(drv, w, vd, "readt", Some(a), desc);
+    }
     let op = w.last_op.clone();
     if let Some(op) = &op {
         if let Some(req) = request(op) {
